@@ -75,12 +75,21 @@ def convert_eems2_commands(command_nodes):
     converted = []
 
     for node in command_nodes:
+        result_name = (
+            node.result_name
+            or find_argument(node, "NewFieldName")
+            or find_argument(node, "InFieldName")
+        )
+        if not isinstance(result_name, six.string_types):
+            raise ProgramError(
+                lineno=node.lineno,
+                message="Cannot convert from EEMS 2.0: NewFieldName (or InFieldName) must be a single name.",
+            )
+
         try:
             converted.append(
                 CommandNode(
-                    node.result_name
-                    or find_argument(node, "NewFieldName")
-                    or find_argument(node, "InFieldName"),
+                    result_name,
                     EEMS_COMMANDS.get(node.command, node.command),
                     [
                         arg
